@@ -95,6 +95,7 @@ func (m *proxyImpl) Do(line string) string {
 		p.PollTXIDInterval = time.Millisecond
 		p.PollTXIDTimeout = 300 * time.Millisecond
 		p.PrimaryRedirectTimeout = 60 * time.Millisecond
+		p.MaxLag = 0 // the health endpoint's lag threshold is not part of the property (the suite's files carry a fixed 2023 timestamp)
 		if err := p.Listen(); err != nil {
 			return "err"
 		}
